@@ -220,13 +220,15 @@ struct Secure {
     chunk: usize,
     align: usize,
     excl: Excl,
+    n: u64,
 }
 impl Pool for Secure {
     fn sized(&self) -> bool {
         false
     }
     fn alloc(&mut self, _req: usize, _align: usize) -> Option<Blk> {
-        let g = self.pool.allocate().ok()?;
+        self.n += 1;
+        let g = if self.n % 3 == 0 { self.pool.allocate_with_hint(true) } else { self.pool.allocate() }.ok()?;
         let p = g.as_ptr();
         Some(blk(p as u64, g.size(), self.align, p, Box::new(g)))
     }
@@ -291,7 +293,8 @@ impl Pool for LockFree {
     fn free(&mut self, b: Blk) -> Option<bool> {
         let (p, size) = *b.h.downcast_ref::<(usize, usize)>()?;
         self.last = Some((p, size));
-        Some(self.pool.deallocate(NonNull::new(p as *mut u8)?, size).is_ok())
+        let q = NonNull::new(p as *mut u8)?;
+        Some(if size % 16 == 0 { self.pool.deallocate_with_zero(q, size) } else { self.pool.deallocate(q, size) }.is_ok())
     }
     fn free_again(&mut self) -> Option<bool> {
         let (p, size) = self.last?;
@@ -1083,7 +1086,7 @@ fn make(name: &str, excl: &Excl) -> Option<Box<dyn Pool>> {
                 _ => return None,
             };
             let (chunk, align) = (cfg.chunk_size, cfg.alignment);
-            Box::new(Secure { pool: SecureMemoryPool::new(cfg).ok()?, chunk, align, excl })
+            Box::new(Secure { pool: SecureMemoryPool::new(cfg).ok()?, chunk, align, excl, n: 0 })
         }
         "lockfree" => {
             let cfg = match var {
@@ -1508,10 +1511,14 @@ fn drive_run(run: &mut Run, rng: &mut Rng, regime: &str, steps: usize) {
     let has_free = run.pool().has_free();
     // exhaustion: small classes of the pool, allocate until refused, then churn
     let mut exhausted = false;
+    if !has_free {
+        run.scope(true); // arenas: everything happens inside a scope, so that it can be released again
+    }
     for step in 0..steps {
         if run.dead {
             break;
         }
+        let ev0 = run.c.events;
         let c = rng.below(100);
         let nlive = run.live.len();
         let want_alloc = match regime {
@@ -1540,6 +1547,15 @@ fn drive_run(run: &mut Run, rng: &mut Rng, regime: &str, steps: usize) {
             if run.c.refused > before && regime == "exhaust" && step > 4 {
                 exhausted = true;
             }
+            if run.c.refused > before && !has_free && rng.chance(1, 2) {
+                // a full arena: release the innermost scope (or everything) and go on
+                if run.scopes.is_empty() {
+                    run.reset_all();
+                } else {
+                    run.scope(false);
+                    run.scope(true);
+                }
+            }
             run.touch();
         } else if c < 90 && nlive > 0 && has_free {
             let i = rng.below(nlive as u64) as usize;
@@ -1555,7 +1571,9 @@ fn drive_run(run: &mut Run, rng: &mut Rng, regime: &str, steps: usize) {
                 3 => run.reset_all(),
                 _ => run.maintenance(rng.next()),
             }
-            run.touch();
+            if run.c.events > ev0 {
+                run.touch();
+            }
         } else if c < 95 {
             run.maintenance(rng.next());
             run.touch();
@@ -1579,7 +1597,7 @@ fn child_drive(a: &Args, name: &str, excl: &Excl) -> Value {
     let regimes: Vec<(&str, usize, usize)> = if a.thorough() {
         vec![("mixed", 120, 40), ("churn", 120, 30), ("exhaust", 260, 6)]
     } else {
-        vec![("mixed", 60, 4), ("churn", 50, 3), ("exhaust", 150, 1)]
+        vec![("mixed", 50, 3), ("churn", 50, 3), ("exhaust", 120, 1)]
     };
     let mut tot = Counts::default();
     let mut runs = 0usize;
